@@ -35,6 +35,13 @@ func own(kind string) qsched.Step {
 	if kind == "dead" {
 		op.Reason = "boom"
 	}
+	if kind == "ackb" || kind == "nackb" || kind == "deadb" {
+		// batch settlement of the own lease together with an unknown one
+		op = qmodel.Op{Kind: kind, Leases: []string{"own", "lease_unknown"}}
+		if kind == "deadb" {
+			op.Reason = "boom"
+		}
+	}
 	return qsched.Step{Op: op}
 }
 
@@ -83,14 +90,32 @@ func TestCheck(t *testing.T) {
 		sleep bool
 	}
 	var runs []run
-	// memory: unbounded (every interleaving); sqlite: preemption-bounded
+	// memory: preemption-bounded plain exploration + unbounded exploration under sleep sets (since the workers yield
+	// between their operations, so that the clock can move while a lease is held, the plain unbounded enumeration of
+	// the four-thread scenarios no longer fits a quick run); one three-thread scenario keeps the FULL unbounded
+	// enumeration as the ground truth the sleep-set reduction is compared with
+	small := scenario("memory", "ack", "nack", false, []time.Duration{sec})
+	small.Name = "memory-ack-nack-ground-truth"
+	runs = append(runs, run{sc: small, bound: -1, sleep: true})
 	for _, kk := range [][2]string{{"ack", "nack"}, {"nack", "ext"}, {"ext", "ack"}} {
-		runs = append(runs, run{sc: scenario("memory", kk[0], kk[1], true, []time.Duration{sec}), bound: -1, sleep: kk[0] == "ack"})
+		runs = append(runs, run{sc: scenario("memory", kk[0], kk[1], true, []time.Duration{sec}), bound: runner.Pick(r, 3, 4), sleep: true})
 	}
-	runs = append(runs, run{sc: scenario("memory", "nack", "nack", true, []time.Duration{sec, sec}), bound: runner.Pick(r, 4, -1), sleep: true})
+	runs = append(runs, run{sc: scenario("memory", "nack", "nack", true, []time.Duration{sec, sec}), bound: runner.Pick(r, 3, 4), sleep: true})
 	sb := runner.Pick(r, 2, 3)
 	runs = append(runs, run{sc: scenario("sqlite", "ack", "nack", true, nil), bound: sb, sleep: r.Thorough()})
 	runs = append(runs, run{sc: scenario("sqlite", "nack", "ext", false, []time.Duration{sec}), bound: sb, sleep: true})
+	// a late batch settlement of an expired lease overlapping the next consumer's dequeue (single message: both
+	// consumers compete for it across the expiry)
+	for _, k := range []string{"ackb", "nackb"} {
+		st := scenario("sqlite", k, "ack", false, nil)
+		st.Name = "sqlite-late-" + k + "-vs-redelivery"
+		// the first consumer already holds a#1 and the lease has just expired when the threads start
+		st.Setup = []qmodel.Op{st.Setup[0], deq(1).Op, {Kind: "tick", Dur: sec}}
+		late := own(k)
+		late.Op.Leases = []string{"a#1", "lease_unknown"}
+		st.Threads[0].Steps = []qsched.Step{late}
+		runs = append(runs, run{sc: st, bound: sb, sleep: true})
+	}
 	if r.Thorough() {
 		runs = append(runs, run{sc: scenario("sqlite", "ext", "ack", true, []time.Duration{sec}), bound: 2, sleep: true})
 		runs = append(runs, run{sc: scenario("sqlite", "dead", "nack", true, []time.Duration{sec}), bound: 2, sleep: true})
